@@ -4,4 +4,6 @@ package main
 import (
 	_ "verif/h/c01"
 	_ "verif/h/c14"
+	_ "verif/h/c15"
+	_ "verif/h/c16"
 )
